@@ -87,6 +87,11 @@ TAG_NAMES = ["t", "u.v", "w-x", "y_z"]
 GETTERS = ["GetA", "Db", "Logger", "GetX1", "Mailer", "Svc", "GetFoo", "GetBar", "Q", "R2"]
 
 
+def tag_obj(rng, name, prio):
+    """object form of a tag; a YAML mapping has no key order, so either key may be written first"""
+    return {"name": name, "priority": prio} if rng.random() < 0.5 else {"priority": prio, "name": name}
+
+
 def gen_literal(rng):
     k = rng.randrange(9)
     if k == 0:
@@ -199,7 +204,7 @@ def gen_config(rng, nsvc=None, nparams=None, valid=True, imp="fx", scopes=True, 
             if rng.random() < 0.35:
                 s["fields"] = {f: gen_arg(rng, pnames, prev_live, avail_tags, allow) for f in rng.sample(["F1", "F2"], rng.randint(1, 2))}
         if own_tags:
-            s["tags"] = [t if rng.random() < 0.5 else {"name": t, "priority": rng.choice([0, 1, -1, 5, 5, 100, -100])} for t in own_tags]
+            s["tags"] = [t if rng.random() < 0.5 else tag_obj(rng, t, rng.choice([0, 1, -1, 5, 5, 100, -100])) for t in own_tags]
         for a in _all_args(s):
             if isinstance(a, str) and a.startswith("!tagged"):
                 requested.add(a.split()[-1])
@@ -376,8 +381,10 @@ def split_config(rng, cfg, nfiles):
 # each other, repeated references inside one pattern, non-ASCII function arguments.
 
 WILD_SVC = ["db", "DB", "Db", "cache", "cache.v2", "cache-v2", "repo", "Repo", "a", "a.b", "a-b", "a_b", "handler", "h1"]
-WILD_PARAM = ["host", "Host", "HOST", "port", "dsn", "dsn.ro", "env", "region", "x", "x1"]
-WILD_TAGS = ["t", "T", "t.u", "plug-in"]
+# parameters, services and tags are separate namespaces: the pools overlap on purpose (`%db%`, `@db` and `!tagged db` are three
+# different things that may all occur in one argument list)
+WILD_PARAM = ["host", "Host", "HOST", "port", "dsn", "dsn.ro", "env", "region", "x", "x1", "db", "cache", "repo", "a", "t"]
+WILD_TAGS = ["t", "T", "t.u", "plug-in", "db", "cache", "a", "host"]
 WILD_FIELDS = ["Host", "host", "Port", "F1", "f1"]
 
 
@@ -424,6 +431,14 @@ def gen_config_wild(rng):
     snames = rng.sample(WILD_SVC, ns)
     pnames = rng.sample(WILD_PARAM, np_)
     tags = rng.sample(WILD_TAGS, rng.randint(0, 3))
+    if rng.random() < 0.5:
+        # the same identifier as a service, a parameter and a tag
+        shared_names = [n for n in snames if n in WILD_PARAM or n in WILD_TAGS]
+        for n in shared_names:
+            if n in WILD_PARAM and n not in pnames and rng.random() < 0.7:
+                pnames.append(n)
+            if n in WILD_TAGS and n not in tags and rng.random() < 0.7:
+                tags.append(n)
     params = {n: (wild_pattern(rng, pnames[:i] if rng.random() < 0.8 else pnames) if rng.random() < 0.6 else gen_literal(rng)) for i, n in enumerate(pnames)}
     services = {}
     for idx, n in enumerate(snames):
@@ -431,6 +446,9 @@ def gen_config_wild(rng):
             return wild_arg(rng, pn, sn, tg, earlier=_e)
         if rng.random() < 0.08:
             services[n] = {"todo": True, "arguments": ["@nothing"]}
+            if rng.random() < 0.6:
+                # a placeholder keeps its declared scope: it IS a contextual / shared service for everybody who depends on it
+                services[n]["scope"] = rng.choice(["shared", "contextual", "contextual", "non_shared"])
             continue
         s = {}
         form = rng.choice(["ctor", "ctor", "value", "type", "ctor-noargs"])
@@ -449,7 +467,7 @@ def gen_config_wild(rng):
         if rng.random() < 0.4:
             s["fields"] = {f: warg(rng, pnames, snames, tags) for f in rng.sample(WILD_FIELDS, rng.randint(1, 3))}
         if tags and rng.random() < 0.5:
-            s["tags"] = [t if rng.random() < 0.6 else {"name": t, "priority": rng.choice([0, 5, -5])} for t in rng.sample(tags, rng.randint(1, len(tags)))]
+            s["tags"] = [t if rng.random() < 0.6 else tag_obj(rng, t, rng.choice([0, 5, -5])) for t in rng.sample(tags, rng.randint(1, len(tags)))]
         if rng.random() < 0.5:
             s["scope"] = rng.choice(["shared", "contextual", "non_shared"])
         services[n] = s
